@@ -1,0 +1,9 @@
+//go:build verif
+
+package rle
+
+// VerifState exposes the encoder's control state (read-only) to the
+// verification harness (build tag "verif").
+func (r *RLE) VerifState() (bufCount, repeatCount, groupCount, headerPointer int, prev uint8) {
+	return r.bufCount, r.repeatCount, r.groupCount, r.headerPointer, r.prev
+}
